@@ -8,7 +8,10 @@
 (* "document order" is simply the order of the naturals, and parent[i] < i.*)
 (*                                                                         *)
 (* kind[i] is one of                                                       *)
-(*   "ea" "eb"   element named a / b                                       *)
+(*   "ea" "eb"   element named a / b (no namespace)                        *)
+(*   "en" "em"   element a in namespace urn:x / urn:x-y  (the first URI is *)
+(*               a string prefix of the second on purpose)                 *)
+(*   "xn"        attribute a in namespace urn:x                            *)
 (*   "t"         text node          "c" comment       "p" processing instr.*)
 (*   "xa" "xc"   attribute named a / c  (an attribute may share its name   *)
 (*               with an element: the principal node kind decides)         *)
@@ -29,8 +32,8 @@ CONSTANTS N,          \* number of non-document nodes
 
 VARIABLES parent, kind
 
-ElemKinds == {"ea", "eb"}
-AttrKinds == {"xa", "xc"}
+ElemKinds == {"ea", "eb", "en", "em"}
+AttrKinds == {"xa", "xc", "xn"}
 LeafKinds == {"t", "c", "p"}
 
 HasDoc  == RootCfg = "R1"              \* node 0 is a real parent of node 1
@@ -111,7 +114,8 @@ AllAxes == {"self", "child", "attribute", "parent", "ancestor", "ancestor-or-sel
 
 (* Node tests.  The principal node kind of the attribute axis is attribute, *)
 (* of every other axis element.                                            *)
-AllTests == {"node()", "*", "a", "b", "c", "text()", "comment()", "processing-instruction()"}
+(* prefixes p -> urn:x, q -> urn:x-y are bound by the caller; *:a is XPath 2.0+ *)
+AllTests == {"node()", "*", "a", "b", "c", "p:a", "p:*", "q:a", "q:*", "*:a", "text()", "comment()", "processing-instruction()"}
 Match(ax, t, n) ==
   LET k == KindOf(n) IN
   CASE t = "node()"  -> TRUE
@@ -119,6 +123,11 @@ Match(ax, t, n) ==
     [] t = "a"       -> IF ax = "attribute" THEN k = "xa" ELSE k = "ea"
     [] t = "b"       -> IF ax = "attribute" THEN FALSE    ELSE k = "eb"
     [] t = "c"       -> IF ax = "attribute" THEN k = "xc" ELSE FALSE
+    [] t = "p:a"     -> IF ax = "attribute" THEN k = "xn" ELSE k = "en"
+    [] t = "p:*"     -> IF ax = "attribute" THEN k = "xn" ELSE k = "en"
+    [] t = "q:a"     -> IF ax = "attribute" THEN FALSE    ELSE k = "em"
+    [] t = "q:*"     -> IF ax = "attribute" THEN FALSE    ELSE k = "em"
+    [] t = "*:a"     -> IF ax = "attribute" THEN k \in {"xa", "xn"} ELSE k \in {"ea", "en", "em"}
     [] t = "text()"  -> k = "t"
     [] t = "comment()" -> k = "c"
     [] t = "processing-instruction()" -> k = "p"
